@@ -9,12 +9,13 @@ pub mod c13;
 pub mod c15;
 pub mod c17;
 pub mod c18;
+pub mod selftest;
 pub mod vmcommon;
 
 use crate::kernel::Check;
 
 pub fn registry() -> Vec<&'static dyn Check> {
-    vec![&c02::C02, &c03::C03, &c04::C04, &c05::C05, &c07::C07, &c09::C09, &c12::C12, &c13::C13, &c15::C15, &c17::C17, &c18::C18]
+    vec![&c02::C02, &c03::C03, &c04::C04, &c05::C05, &c07::C07, &c09::C09, &c12::C12, &c13::C13, &c15::C15, &c17::C17, &c18::C18, &selftest::SelfTest]
 }
 
 pub fn find(id: &str) -> Option<&'static dyn Check> {
